@@ -4,8 +4,12 @@ P="$1"; ID="$2"; TIER="${3:-quick}"
 cd /repo || exit 2
 if [ -n "$(git status --porcelain)" ]; then echo "repo not clean"; exit 2; fi
 git apply "$P" || { echo "patch does not apply"; exit 2; }
+# the evidence file must describe the unchanged tree: keep it aside while the check runs on the changed one
+cp /verif/evidence/$ID.json /tmp/mutant.$$.evidence 2>/dev/null
 /verif/check "$ID" "$TIER" > /tmp/mutant.$$.log 2>&1; RC=$?
 git checkout -- . ; git clean -fdq
+[ -f /tmp/mutant.$$.evidence ] && mv /tmp/mutant.$$.evidence /verif/evidence/$ID.json
+rm -rf /verif/findings/$ID
 echo "mutant $(basename $P) on $ID: exit=$RC $(grep -c '^VIOLATION' /tmp/mutant.$$.log) violations"
 grep "violated clauses\|tier=" /tmp/mutant.$$.log | cut -c1-400
 [ -n "$VERBOSE" ] && cat /tmp/mutant.$$.log
